@@ -163,7 +163,10 @@ impl Sys {
         let mut seed = [0u8; 32];
         seed[0] = (case % 251) as u8;
         seed[1] = 0xc1;
-        let world = World::new(policy, seed, KeyDerivationStyle::Native);
+        let mut world = World::new(policy, seed, KeyDerivationStyle::Native);
+        // every second case runs under the on-chain validator (what the daemon uses), with the
+        // funding buried at set-up: it must then answer like the simple one
+        world.onchain = case % 2 == 1;
         let node = world.new_node();
         let node_id = node.get_id();
         let secp = Secp256k1::new();
@@ -278,10 +281,43 @@ impl Sys {
         None
     }
 
+    /// the transaction whose output 0 is the channel's funding outpoint (the same for every
+    /// set-up of the channel)
+    fn funding_tx() -> Transaction {
+        use lightning_signer::bitcoin::{absolute::LockTime, transaction::Version, Amount, OutPoint, Sequence, TxIn, TxOut, Witness};
+        Transaction {
+            version: Version::TWO,
+            lock_time: LockTime::ZERO,
+            input: vec![TxIn {
+                previous_output: OutPoint { txid: lightning_signer::bitcoin::Txid::all_zeros(), vout: 3 },
+                script_sig: ScriptBuf::new(),
+                sequence: Sequence::MAX,
+                witness: Witness::default(),
+            }],
+            output: vec![TxOut { value: Amount::from_sat(VALUE), script_pubkey: ScriptBuf::from(vec![0x00, 0x20, 7, 7, 7, 7, 7, 7, 7, 7, 7, 7, 7, 7, 7, 7, 7, 7, 7, 7, 7, 7, 7, 7, 7, 7, 7, 7, 7, 7, 7, 7, 7, 7]) }],
+        }
+    }
+
     fn setup(&mut self) -> bool {
         let mut setup = make_test_channel_setup();
         setup.channel_value_sat = VALUE;
+        let ftx = Sys::funding_tx();
+        setup.funding_outpoint = lightning_signer::bitcoin::OutPoint { txid: ftx.compute_txid(), vout: 0 };
+        let was_ready = self.is_ready();
         let r = self.node.setup_channel(self.channel_id.clone(), None, setup.clone(), &DerivationPath::master());
+        if r.is_ok() && !was_ready && self.world.onchain {
+            // the on-chain validator lets the channel move past its first commitment only once the
+            // funding is buried: two blocks reach the channel's monitor, the second one carries
+            // the funding transaction, and the tracker entry that holds the monitor is written
+            use lightning_signer::chain::tracker::ChainListener;
+            let tracker = self.node.get_tracker();
+            let h = BlockHash::all_zeros();
+            for (_, (listener, _)) in tracker.listeners.iter() {
+                listener.on_add_block(&[], &h);
+                listener.on_add_block(&[ftx.clone()], &h);
+            }
+            self.world.persister.update_tracker(&self.node_id, &tracker).expect("update_tracker");
+        }
         if r.is_ok() {
             let nctx = self.node_ctx();
             let keys = make_test_counterparty_keys(&nctx, &self.channel_id, VALUE);
@@ -1227,7 +1263,7 @@ fn run(args: &Args) {
         let coq = format!("(({}, {}), {}, {})", warn_coq, profile, coq_list(&ops), coq_list(&obs));
         emit(
             "CASE",
-            json!({"id": case, "proto": proto, "warn": warn, "profile": profile, "aborted": aborted, "ops": jops, "monitor_violations": mon.violations,
+            json!({"id": case, "proto": proto, "validator": if sys.world.onchain { "onchain" } else { "simple" }, "warn": warn, "profile": profile, "aborted": aborted, "ops": jops, "monitor_violations": mon.violations,
                    "disclosed": mon.disclosed, "hsigned": mon.hsigned, "coq": coq}),
         );
     }
